@@ -16,7 +16,7 @@ from ..flow import Flow, lexically_inside
 
 FILESET = "typhon/files/fileset.py"
 HCOMMON = "typhon/files/handlers/common.py"
-EXPECT = {"C15.order": 6, "C15.load": 3, "C15.register": 1, "C15.format": 3, "C15.lookup": 3}
+EXPECT = {"C15.order": 6, "C15.load": 3, "C15.register": 1, "C15.format": 3, "C15.lookup": 3, "C15.entries": 2}
 
 
 def _write_mode(call):
@@ -406,6 +406,49 @@ def rule_reset(ctx, rule=None):
            node=resets[0] if resets else g.node, func=g, rule=rule)
 
 
+def rule_entries(ctx):
+    """from_json_dict turns a cached entry into a FileInfo only when it is usable: both times become datetimes, path is a string and
+    the attributes a dict - anything else raises (load_cache then warns and starts with an empty cache)."""
+    ctx.rule("C15.entries", "T1", "from_json_dict: every time becomes a datetime or the entry is rejected; path / attr are type-checked before the FileInfo is built")
+    from ..flow import Flow, guard_chain
+    r = ctx.func(HCOMMON, "FileInfo.from_json_dict")
+    flow = Flow(r)
+    jd = r.params[1] if len(r.params) > 1 else r.params[0]
+    # values that end up in the list of times
+    produced = []
+    for c in calls_in(r.node, "append"):
+        if c.args:
+            produced.append((c.args[0], c))
+    for st in flow.stmts:
+        if isinstance(st, ast.Assign) and isinstance(st.value, (ast.List, ast.ListComp)) and "times" in norm(st.targets[0]):
+            for e in (st.value.elts if isinstance(st.value, ast.List) else [st.value.elt]):
+                produced.append((e, st))
+    if not produced:
+        raise AnalysisError("from_json_dict: construction of the two times not found")
+    bad = []
+    for e, at in produced:
+        ok_dt = isinstance(e, ast.Call) and (dotted(e.func) or "").split(".")[-1] in ("strptime", "fromisoformat", "to_datetime")
+        if isinstance(e, ast.IfExp):
+            ok_dt = all(isinstance(x, ast.Call) and (dotted(x.func) or "").split(".")[-1] in ("strptime", "fromisoformat", "to_datetime") for x in (e.body, e.orelse))
+        if not ok_dt:
+            bad.append(str(norm(e))[:40])
+    ctx.ob("FileInfo.from_json_dict.times", not bad, "values stored as times: %s" % ([str(norm(e))[:50] for e, _ in produced]),
+           "only parsed datetimes (a missing time raises: find() cannot compare None or a list with a datetime)", node=produced[0][1], func=r)
+    # type checks on path and attr
+    checked = set()
+    for st in flow.stmts:
+        if isinstance(st, ast.If) and any(isinstance(x, ast.Raise) for x in st.body):
+            for c in calls_in(st.test, "isinstance"):
+                if len(c.args) == 2:
+                    a0 = str(norm(c.args[0])).replace('"', "'")
+                    for key, typ in (("path", ("str", "(str, os.PathLike)", "(str, bytes)")), ("attr", ("dict", "Mapping", "(dict,)"))):
+                        if a0 == "%s['%s']" % (jd, key) and str(norm(c.args[1])) in typ:
+                            checked.add(key)
+    ctx.ob("FileInfo.from_json_dict.types", checked == {"path", "attr"}, "type-checked before use: %s" % (sorted(checked) or "nothing"),
+           "path must be a string and attr a dict, otherwise ValueError (a cached attr of another JSON type made find() raise AttributeError)",
+           node=r.node, func=r, witness=None if checked == {"path", "attr"} else {"cache entry": {"path": "<file>", "times": ["...", "..."], "attr": "s"}})
+
+
 def run(ctx):
-    for r in (rule_order, rule_load, rule_register, rule_format, rule_lookup):
+    for r in (rule_order, rule_load, rule_register, rule_format, rule_lookup, rule_entries):
         ctx.attempt(r, ctx)
